@@ -822,3 +822,27 @@ Theorem fit_adjust_state summ obs thetas bs n :
 Proof.
   intros st. destruct (adjust_calls_spec n st thetas) as [H1 H2]. rewrite H1, H2. split; reflexivity.
 Qed.
+
+(** a history of fits on one object: every entry returns what a FRESH object returns for that
+    sample, and the object ends as the last fit made it (X of the last sample, one coefficient
+    vector per parameter of the last fit) *)
+Theorem run_history_spec h : forall st,
+  snd (run_history st h) = map fresh_result h
+  /\ fst (run_history st h) = match rev h with [] => st | (a, _) :: _ => refit st a end.
+Proof.
+  induction h as [|[a n] h IH]; intros st; simpl; auto.
+  destruct (adjust_calls_spec n (refit st a) (f_thetas a)) as [H1 H2].
+  destruct (adjust_calls n (refit st a) (f_thetas a)) as [st1 os]. simpl in H1, H2. subst st1 os.
+  specialize (IH (refit st a)). destruct (run_history (refit st a) h) as [st2 r]. simpl in *.
+  destruct IH as [-> ->]. split; [reflexivity|].
+  destruct (rev h) as [|[a' n'] l] eqn:E; simpl; reflexivity.
+Qed.
+
+Theorem run_history_last st h a n :
+  let st' := fst (run_history st (h ++ [(a, n)])) in
+  st_X st' = input_variables (f_summ a) (f_obs a) /\ length (st_coefs st') = length (f_bs a)
+  /\ length (st_masks st') = length (f_thetas a).
+Proof.
+  intros st'. unfold st'. destruct (run_history_spec (h ++ [(a, n)]) st) as [_ H]. rewrite H.
+  rewrite rev_app_distr. simpl. unfold fit_state. simpl. rewrite map_length. auto.
+Qed.
